@@ -242,13 +242,13 @@ PROPS["C18"] = {
 
 PROPS["C03"] = {
     "level": "proof",
-    "verus": [{"unit": "decoder", "rlimit": 300}, {"unit": "decoder_inplace", "rlimit": 300}],
+    "verus": [{"unit": "decoder", "rlimit": 300}, {"unit": "decoder_inplace", "rlimit": 300}, {"unit": "dom_visitor", "rlimit": 200}],
     "kani": K_META,
     "trusted_base": [T1, T2, T6, T8, VSTD, KANI, T4, PERR,
-                     "DocumentVisitor itself (flattening into the thread-local node stack, arena copy with copy_nonoverlapping into bumpalo, back-pointer header) and the public read API walk are NOT under contract: what is proved is the event list the visitor is fed",
+                     "DocumentVisitor: its callbacks (impl JsonVisitor: which node kind / payload / sibling index each event pushes) are proved in unit dom_visitor at dispatch level, with the node stack opaque; the stack machinery itself (push_node, visit_container_start / visit_container_end: flattening, arena copy with copy_nonoverlapping into bumpalo, back-pointer header, visit_root) and the public read API walk are NOT under contract (CBMC needs > 50 GB on a 10-event script)",
                      "string / number payloads are uninterpreted here (decoded, num_event) and delegate to C09 / C07; Parser::parse_number and parse_str enter through assumed contracts",
                      T9],
-    "level_text": "Verus proof that both parse drivers — copy-out parse_value2/parse_array2/parse_object2 and the in-place parse_dom/parse_value/parse_array/parse_object behind from_str::<Value> — feed the visitor exactly the reference pre-order event list of the text (value_events: same nesting, array order, members in source order with duplicates kept, exact element/member counts, booleans/null exact), for every input; plus Kani/CBMC complete proofs of the packed node metadata the DOM is built from: kind/index/length round trips and totality of get_type for every packed value; the 29-bit index field is the known finding F5",
+    "level_text": "Verus proof that both parse drivers — copy-out parse_value2/parse_array2/parse_object2 and the in-place parse_dom/parse_value/parse_array/parse_object behind from_str::<Value> — feed the visitor exactly the reference pre-order event list of the text (value_events: same nesting, array order, members in source order with duplicates kept, exact element/member counts, booleans/null exact), for every input; that each DocumentVisitor callback pushes the node that event denotes (kind incl. raw-number vs string, payload, sibling index); plus Kani/CBMC complete proofs of the packed node metadata the DOM is built from: kind/index/length round trips and totality of get_type for every packed value; the 29-bit index field is the known finding F5",
     "level_note": "event-list half + representation kernels; the arena construction between them is not decided",
     "technique": TECH_VK,
     "explanation": "parse_value2 / parse_value: trace' == trace + value_events(text); Meta::{pack_dom_node,unpack_dom_node,pack_static_str,get_type,unpack_root}",
